@@ -17,6 +17,7 @@ import Driver.C19Mon
 import Driver.C16Mon
 import Driver.C11Mon
 import Driver.C09Mon
+import Driver.C13Mon
 open Kv
 
 structure MState where
@@ -50,6 +51,7 @@ def dispatchMon (st : MState) (prop : String) (l : Line) : MState × String :=
   | "C19" => (st, Drv.C19.stepMon l)
   | "C16" => let (s, r) := Drv.C16.stepMon st.c16 l; ({ st with c16 := s }, r)
   | "C09" => (st, Drv.C09.stepMon l)
+  | "C13" => (st, Drv.C13.stepMon l)
   | _ => (st, "bad-op")
 
 def main : IO Unit := driverMain dispatchMon {}
